@@ -67,7 +67,7 @@ def families(quick):
     # fees.DEFAULT_CONSTANTS while taking the limit from the node; the repaired code prices the limit it sets, so these families hold now).
 
 
-def observe(kinds, key_kind, mode, sim_ix, chain, hard_gas, hard_storage, via_bulk=False):
+def observe(kinds, key_kind, mode, sim_ix, chain, hard_gas, hard_storage, via_bulk=False, gas_reserve=None, again=False):
     """Real fill()/autofill() against FakeNode -> dict(fees, gases, storages, counters, forged, size, signed)."""
     from ..fakenode import DecodeError, decode_manager_group
     from ..opclient import add_content, make_client, make_key
@@ -90,7 +90,12 @@ def observe(kinds, key_kind, mode, sim_ix, chain, hard_gas, hard_storage, via_bu
             spec.append({'consumed_milligas': mg, 'paid_storage_size_diff': pdiff, 'internal': [INT_MILLIGAS] * nint,
                          'originated' if kind.startswith('origination') else 'allocated_destination_contract': alloc})
         node.sim_script.append(spec)
-        f = g.autofill()
+        f = g.autofill() if gas_reserve is None else g.autofill(gas_reserve=gas_reserve)
+        if again:
+            # the priced group goes through autofill once more (autofill() for a preview, then send()), and the second simulation consumes more
+            spec2 = [dict(x, consumed_milligas=x['consumed_milligas'] * 3 + 250000) for x in spec]
+            node.sim_script.append(spec2)
+            f = f.autofill()
     else:
         f = g.fill()
     if node.unknown:
@@ -142,7 +147,10 @@ def judge(ctx, st, obs, case):
     need = -(-(100000 + 1000 * size + 100 * gas) // 1000)
     detail = ('%s of %s signed by %s (simulation %s): total fee %d mutez < node minimum %d = 100 + %d bytes + ceil(%d gas / 10)'
               % (case['mode'], case['kinds'], case['key'], case['sim'], fee, need, size, gas))
-    if model_same and limits_same and m['cls'] in CLASSES:
+    if 'gas_reserve' in case or case.get('again'):
+        ctx.mismatch('C24:%s' % ('autofill-with-gas_reserve' if 'gas_reserve' in case else 'second-autofill-of-a-priced-group'), detail + '\n(%s)' % (
+            'gas_reserve=%s' % case.get('gas_reserve') if 'gas_reserve' in case else 'autofill() of the group autofill() returned, the second simulation consuming more'), case)
+    elif model_same and limits_same and m['cls'] in CLASSES:
         ctx.mismatch('C24:' + m['cls'], detail + '\n(OpFees.tla: the as-coded computation gives exactly this fee; class %s)' % m['cls'], case)
     else:
         ctx.mismatch('C24:unexplained', detail + '\nas-coded model: %s\nobserved: %s' % (to_json(m), obs), case)
@@ -153,6 +161,12 @@ def replay_state(ctx, st, f):
             'hard_gas': f['hard_gas'], 'hard_storage': f['hard_storage'], 'model': to_json(st['out'])}
     obs = observe(case['kinds'], case['key'], case['mode'], case['sim'], case['chain'], f['hard_gas'], f['hard_storage'])
     judge(ctx, st, obs, case)
+    if case['mode'] == 'autofill' and len(case['kinds']) <= 2 and case['key'] in ('tz1', 'tz4'):
+        # the caller's knobs: other gas reserves than the default, and a second pass over an already priced group; the node's rule is judged on what comes out
+        for kw in ({'gas_reserve': 0}, {'gas_reserve': 7}, {'gas_reserve': 1000}, {'again': True}):
+            obs3 = observe(case['kinds'], case['key'], case['mode'], case['sim'], case['chain'], f['hard_gas'], f['hard_storage'], **kw)
+            ctx.count(('knob', tuple(kw.items())) + tuple(case['kinds']) + (case['key'], tuple(case['sim']), f['hard_gas']), nontrivial=True)
+            judge(ctx, {'out': dict(st['out'], cls='with-caller-knobs')}, obs3, dict(case, **kw))
     if case['mode'] == 'fill' and case['key'] == 'tz1' and len(case['kinds']) <= 2 and 'reveal' not in case['kinds'] and 'delegation' not in case['kinds']:
         obs2 = observe(case['kinds'], case['key'], case['mode'], case['sim'], case['chain'], f['hard_gas'], f['hard_storage'], via_bulk=True)
         ctx.count(('bulk',) + tuple(case['kinds']) + (f['hard_gas'],), nontrivial=True)
